@@ -207,8 +207,10 @@ inline rc::Gen<ProgCase> genProgCase(std::vector<int> shapeWeights, int fastPct,
 
 // instruction-wise minimisation of a failing program case (delta debugging: replace instructions by the NOP-equivalent,
 // zero configuration quadwords). stillFails must be deterministic.
-inline ProgCase minimize(ProgCase c, const std::function<bool(const ProgCase&)>& stillFails) {
+inline ProgCase minimize(ProgCase c, const std::function<bool(const ProgCase&)>& stillFails0) {
 	const int N = RANDOMX_PROGRAM_MAX_SIZE;
+	// every candidate runs under the crash/hang attribution of the harness runtime
+	auto stillFails = [&](const ProgCase& t) { vh::current(t.dump()); bool r = stillFails0(t); vh::clearCurrent(); return r; };
 	uint8_t nopb[8]; put(nopb, nopEquivalent());
 	// halves first, then single instructions
 	for (int span = N / 2; span >= 1; span /= 2) {
